@@ -543,6 +543,19 @@ func (e *Engine) VerifyFunc(key string) (res *FuncResult) {
 		_ = hasMod
 		fr.funcWC = &writeConstraint{what: "frame", items: items, nextAt: st.next}
 	}
+	// ghost statements at entry: an (unconditional) `ghostinc g(keys)` on a VERIFIED function is the ghost
+	// assignment g[keys]++ executed when the function is entered - callers see it through the contract, the body
+	// is verified with it in place (its posts and frame may mention it)
+	if sp != nil {
+		for _, c := range sp.ClausesOf("ghostinc") {
+			if strings.Contains(c.Text, " when ") {
+				res.Err = "conditional ghostinc is only meaningful on trusted functions: " + key
+				return
+			}
+			ev := fr.evalCtx(st, st)
+			fr.ghostInc(ev, c, st)
+		}
+	}
 	exit, results := fr.run(st, params)
 	// postconditions
 	if sp != nil {
